@@ -43,7 +43,10 @@ TOKENS = ["{", "}", "(", ")", ";", "@", "->", "<", ">", "var", "fn", "struct", "
 
 def corrupt(rng, src):
     chars = list(src)
-    k = rng.randrange(12)
+    k = rng.randrange(13)
+    if k == 12:
+        # a byte order mark (or another invisible character) at the very start of an otherwise valid text
+        return rng.choice(["\ufeff", "\ufeff", "\u200b", "\u00a0"]) + src
     if k >= 7:
         # gentle, mostly still parsable corruptions (aimed at the validator and at the generator's own errors)
         import re
